@@ -208,10 +208,10 @@ HARNESSES = [
                                          "create_quota_inodes"]},
          extra_src=["lib/ext2fs/blknum.c", "lib/ext2fs/io_manager.c"],
          funcs=["vf_real_main", "mke2fs_discard_device", "zap_sector", "should_do_undo", "mke2fs_setup_tdb"],
-         configs=[{"STOP_AT": 1}, {"STOP_AT": 2}, {"STOP_AT": 3}, {"STOP_AT_STATS": None}],
+         configs=[{"STOP_AT_STATS": None}],
          unwind=6, unwindset=["mke2fs_discard_device.0:5", "strlen.0:10", "strcpy.0:10", "strcmp.0:12", "strcasecmp.0:8",
                               "strncpy.0:70", "memcmp.0:17", "strchr.0:6", "io_channel_set_options.0:3", "vf_real_main.0:17",
-                              "vf_real_main.1:3", "vf_real_main.2:3", "vf_real_main.3:3", "vf_real_main.4:3", "memset.0:70"],
+                              "vf_real_main.1:3", "vf_real_main.2:3", "vf_real_main.3:3", "vf_real_main.4:3", "memset.0:70", "vf_fill16.0:17"],
          backends=["default", "kissat"],
          bound="every global PRS() leaves behind symbolic (noaction 0..2, quiet, verbose, discard, dev_size, cflag, super_only, "
                "lazy_itable_init, undo file, journal device/size, bad-blocks file, uuid/os/label/mount dir/src root present or not, "
